@@ -55,6 +55,8 @@ pub fn scene(k: usize) -> Scene {
             let mut s = base("s3");
             s.extensions.push(("ext".into(), "http://example.com/ext".into()));
             s.extensions.push(("nor".into(), "http://www.libe57.org/E57_EXT_surface_normals.txt".into()));
+            // a namespace name with every character that needs care inside an attribute value
+            s.extensions.push(("odd".into(), "http://example.com/a b?x=1&y=<2>\t\"q\"\nsecond 'line' &#9;".into()));
             let mut p = xyz(F32);
             p.push(ext_rec("nor", "normalX", F32));
             p.push(ext_rec("ext", "classification", Ty::Int { min: 0, max: 31 }));
